@@ -97,6 +97,12 @@ def run_apply_procedure(chk, ex, K, on_path):
         ex.log("recursive_call", callee=callee)
         yield Lazy("std::result::Result<values::Value<R>, error::Located<error::ErrorData>>", "rec_result")
 
+    @stub(ex, r"Procedure<R> as PartialEq>::(eq|ne)$", "Procedure equality -> true for the same object, otherwise an arbitrary boolean")
+    def proc_eq(ex, callee, args, rt):
+        a, b = ex.deref(args[0]), ex.deref(args[1])
+        r = z3.BoolVal(True) if a is b else ex.fresh_bool("proc_eq")
+        yield r if callee.endswith("eq") else z3.Not(r)
+
     f = ex.fn_by_suffix("::apply_procedure")
     proc0 = Lazy("values::Procedure<R>", "proc0")
     args0 = ex.fresh_seq("args0", "values::Value<R>", maxlen=MAXARGS)
@@ -339,3 +345,60 @@ def name_of(ex, v):
     if isinstance(x, (Lazy, SeqObj)):
         return x.name
     return None
+
+
+# ================================================================================================ eval_expression (one structural step)
+def run_eval_expression(chk, ex, on_path, max_operands=3):
+    ex.seq_max = max_operands
+    counters = {}
+
+    def fresh(kind):
+        counters[kind] = counters.get(kind, 0) + 1
+        return counters[kind] - 1
+
+    @stub(ex, r"::eval_expression$", "nested eval_expression -> any Ok(value) or any Err; logged (expression object, environment object)")
+    def eval_expr(ex, callee, args, rt):
+        n = len([e for e in ex.events if e["kind"] == "eval"])
+        ex.log("eval", expr=name_of(ex, args[0]), env=frame_of(ex, args[1])[0])
+        v = Lazy("values::Value<R>", "ev%d" % n)
+        for b in ex.branches([True, True]):
+            if b == 0:
+                ex.log("eval_ok", value=v)
+                yield Ok(v)
+            else:
+                e = err_value("from nested eval #%d" % n)
+                ex.log("eval_err", error=e)
+                yield Err(e)
+
+    @stub(ex, r"::apply_procedure$", "apply_procedure -> any Ok(value) or any Err; logged (procedure object, argument vector, environment)")
+    def apply_proc(ex, callee, args, rt):
+        r = Lazy("std::result::Result<values::Value<R>, error::Located<error::ErrorData>>", "apply_result")
+        ex.log("apply", proc=ex.deref(args[0]), args=ex.deref(args[1]), env=frame_of(ex, args[2])[0], result=r)
+        yield r
+
+    @stub(ex, r"LexicalScope::<.*>::get$|LexicalScope::get$", "LexicalScope::get -> Some(reference to any value) or None; logged")
+    def scope_get(ex, callee, args, rt):
+        v = Lazy("values::Value<R>", "looked_up")
+        ex.log("get", env=frame_of(ex, args[0])[0], name=ex.deref(args[1]), value=v)
+        yield Some(Ref(Cell(v, "looked_up_cell")))
+        yield NONE
+
+    @stub(ex, r"LexicalScope::<.*>::set$|LexicalScope::set$", "LexicalScope::set -> Ok or any Err; logged")
+    def scope_set(ex, callee, args, rt):
+        e = err_value("from set")
+        ex.log("set", env=frame_of(ex, args[0])[0], name=ex.deref(args[1]), value=args[2], error=e)
+        yield Ok(Tup([]))
+        yield Err(e)
+
+    @stub(ex, r"::read_literal$|::eval_primitive$", "read_literal / eval_primitive -> an opaque result, passed through; logged")
+    def literal(ex, callee, args, rt):
+        r = Lazy("std::result::Result<values::Value<R>, error::Located<error::ErrorData>>", "literal_result")
+        ex.log("literal", what=callee.rsplit("::", 1)[1], datum=name_of(ex, args[0]), result=r)
+        yield r
+
+    f = ex.fn_by_suffix("::eval_expression")
+    x = Lazy("parser::Expression", "x")
+    envcell = Cell(Opaque("Environment", "the_env"), "env_frame")
+    envrc = Ref(envcell)
+    for rv in ex.run(f, [Ref(Cell(x)), Ref(Cell(envrc))]):
+        on_path(rv, list(ex.events), {"x": x, "envcell": envcell})
